@@ -1219,6 +1219,41 @@ class Engine:
         self.memo[mkey] = out
         return out
 
+    def map_common_keys(self, maps):
+        """Keys present in ALL the given int-keyed heap maps, as a duplicate-free symbolic list in arbitrary order (one map: its keys)."""
+        if len(maps) == 1:
+            items = self.map_items(maps[0])
+            st = self._lst(items)
+            loc = self.new_loc()
+            self.lists[loc] = ["sym", st[1], [st[2][0]], PyInt]
+            return VList(loc)
+        pres = []
+        ids = []
+        for m in maps:
+            hk, s_ = self._map_arrays(m.cls)[0]
+            arr = self.heap_arr(hk, z3.ArraySort(z3.IntSort(), s_))
+            pres.append(z3.Select(arr, m.t))
+            ids += [m.t.get_id(), arr.get_id()]
+        mkey = ("map_common_keys",) + tuple(ids)
+        hit = self.memo.get(mkey)
+        if hit is not None:
+            return hit
+        n = z3.Int(self.fresh_name("ckeys.len"))
+        karr = z3.Array(self.fresh_name("ckeys.key"), z3.IntSort(), z3.IntSort())
+        idx = z3.Function(self.fresh_name("ckeys.idx"), z3.IntSort(), z3.IntSort())
+        j = z3.Int(self.fresh_name("cj"))
+        k = z3.Int(self.fresh_name("ck"))
+        self.assume(n >= 0)
+        self.assume(z3.ForAll([j], z3.Implies(z3.And(j >= 0, j < n), z3.And([z3.Select(p, z3.Select(karr, j)) for p in pres] + [idx(z3.Select(karr, j)) == j])),
+                              patterns=[z3.Select(karr, j)]))
+        self.assume(z3.ForAll([k], z3.Implies(z3.And([z3.Select(p, k) for p in pres]), z3.And(idx(k) >= 0, idx(k) < n, z3.Select(karr, idx(k)) == k)),
+                              patterns=[z3.MultiPattern(*[z3.Select(p, k) for p in pres])]))
+        loc = self.new_loc()
+        self.lists[loc] = ["sym", n, [karr], PyInt]
+        out = VList(loc)
+        self.memo[mkey] = out
+        return out
+
     def new_map(self, valT):
         """Fresh empty map object."""
         mobj = self.new_object(MapCls(valT))
@@ -1920,6 +1955,8 @@ class Engine:
                 fa, fb = self.to_float(ia), self.to_float(ib)
                 return self.float_binop("/", fa, fb)
             return self.int_binop(op, ia, ib)
+        if op == "&" and isinstance(a, VKeys) and isinstance(b, VKeys):
+            return VKeys(a.maps + b.maps)
         if op == "+" and isinstance(a, VTuple) and isinstance(b, VTuple):
             return VTuple(a.items + b.items)
         if op == "+" and isinstance(a, VList) and isinstance(b, VList):
